@@ -175,6 +175,10 @@ def _store_kill(env: dict, s: ast.AST) -> None:
             if isinstance(n, ast.Call) and isinstance(n.func, ast.Attribute) and ast.unparse(n.func.value) in bases:
                 del env[k]
                 break
+            if isinstance(n, (ast.Attribute, ast.Name)) and isinstance(getattr(n, "ctx", None), ast.Load) and ast.unparse(n) in bases and v is not n:
+                # a value computed from a container that is mutated (len(xs), xs[-1], sorted(xs) ..)
+                del env[k]
+                break
 
 
 def forward_subst(stmts: list[ast.stmt], pure_calls=(), keep: set[str] = frozenset()) -> list[ast.stmt]:
